@@ -104,15 +104,16 @@ package runtime
 //@   ensures implies(w != nil && !dyntype(w, *Buffer), target(b.b) == w)
 //@   ensures implies(w != nil && !dyntype(w, *Buffer), pending(b.b) == "" && sticky(b.b) == nil)
 
-// ReleaseBuffer: the flush error is the result (never swallowed).
+// ReleaseBuffer: the flush error is the result (never swallowed). B = the
+// *Buffer held by w, if w is one.
 //@ func ReleaseBuffer [C10]
 //@   requires implies(dyntype(w, *Buffer), payload(w, *Buffer) != nil && payload(w, *Buffer).b != nil)
 //@   requires implies(dyntype(w, *Buffer), target(payload(w, *Buffer).b) == underlying(w))
-//@   modifies doc(w), failedDuring
-//@   ensures implies(!dyntype(w, *Buffer), err == nil && failedDuring == old(failedDuring) && doc(w) == old(doc(w)))
+//@   modifies doc(payload(w, *Buffer)), failedDuring
+//@   ensures implies(!dyntype(w, *Buffer), err == nil && failedDuring == old(failedDuring))
 //@   ensures implies(dyntype(w, *Buffer), isPrefix(old(out(underlying(w))), out(underlying(w))))
-//@   ensures implies(dyntype(w, *Buffer) && err == nil && old(sticky(payload(w, *Buffer).b)) == nil, out(underlying(w)) == old(doc(w)) && failedDuring == old(failedDuring))
-//@   ensures implies(dyntype(w, *Buffer) && old(sticky(payload(w, *Buffer).b)) == nil, isPrefix(out(underlying(w)), old(doc(w))))
+//@   ensures implies(dyntype(w, *Buffer) && err == nil && old(sticky(payload(w, *Buffer).b)) == nil, out(underlying(w)) == old(doc(payload(w, *Buffer))) && failedDuring == old(failedDuring))
+//@   ensures implies(dyntype(w, *Buffer) && old(sticky(payload(w, *Buffer).b)) == nil, isPrefix(out(underlying(w)), old(doc(payload(w, *Buffer)))))
 //@   ensures implies(dyntype(w, *Buffer) && old(sticky(payload(w, *Buffer).b)) != nil, err != nil)
 //@   ensures implies(err != nil, failedDuring)
 //@   ensures implies(old(failedDuring), failedDuring)
